@@ -671,7 +671,9 @@ def r7_texts(rep, src, tier):
                                                  _changes=body, author='Author %d <a%d@example.org>' % (i, i), date='Thu, 0%d Jan 2004 00:00:0%d +0000' % (i, i))
     bad_ = None
     docs = [[(1, 1, '')], [(1, 2, ''), (2, 1, '')], [(3, 1, ''), (1, 3, ''), (2, 2, '')], [(2, 1, ', binary-only=yes'), (1, 1, '')], [(1, 0, ''), (2, 1, '')],
-            [(1, 1, ' (HIGH for users of x)'), (2, 1, '')], [(2, 2, ', binary-only=yes, closes=123')], [(3, 1, ' (see NEWS), binary-only=yes'), (2, 1, ''), (1, 1, '')]]
+            [(1, 1, ' (HIGH for users of x)'), (2, 1, '')], [(2, 2, ', binary-only=yes, closes=123')], [(3, 1, ' (see NEWS), binary-only=yes'), (2, 1, ''), (1, 1, '')],
+            # (more items than any small number: a cut that stops early leaves the rest in the last value)
+            [(1, 1, ', binary-only=yes, closes=123, x-team=qa, x-origin=vendor, x-more=1'), (2, 1, ', a=b, c=d, e=f, g=h')]]
     for doc in docs:
         lines, want = [], []
         for j, (i, nch, extra) in enumerate(doc):
@@ -746,7 +748,8 @@ def check(src, rep, tier):
         rep.guard('C04.R4', lambda r, extra=extra, k_=k_: r4_layout(r, extra, f, ' (content-dependent layout %d)' % (k_ + 2)))
     if len(lines) >= 3 and lines[0][0] == 'line':
         rep.guard('C04.R1', lambda r: r1_header(r, src, f, lines[0][1], alpha))
-    rep.guard('C04.R1', r1b_reader_wiring, src)
+    # (how the reader is written: a second opinion behind the interpreted texts, which include headings with many key=value items)
+    common.SoftAll(rep, lambda: texts_hold, 'the interpreted well-formed texts (C04.R7), which are read as written').guard('C04.R1', r1b_reader_wiring, src)
     trailer = [t for k, t in lines if k == 'line'][1:2]
     te = None
     if trailer:
